@@ -25,6 +25,12 @@ def gen_cases(rng, tier: str) -> list[dict]:
         if h % 4 == 0:
             ops = rng.choice(H.directed_prefixes(rng, pool)) + ops
         cases.append({"origin": "random" if h % 4 else "directed", "pool": texts, "ops": ops})
+        if h % 5 == 1:
+            # sums and products of equal but distinct operand objects, used at several points
+            g = gen.Gen(rng, names=("x", "y"), floats_only=True)
+            tw = [t for _, t in gen.twin_patterns(g)]
+            pool3 = H.float_pool(rng.sample(tw, min(3, len(tw))))
+            cases.append({"origin": "twins", "pool": H.pool_to_wire(pool3), "ops": H.random_ops(rng, pool3, L)})
         if h % 2 == 0:
             pool2 = H.sum_pool(rng) if h % 4 == 0 else pool
             cases.append({"origin": "resimplify", "pool": H.pool_to_wire(pool2),
@@ -42,9 +48,12 @@ def node_vars(e) -> tuple:
 
 
 def snapshot_expr(e, p0: Point) -> tuple:
+    """everything observable about an expression; the value is taken at p0 after an evaluation at a
+    different point, so that whatever an operation left on the objects (memos included) would show"""
     ids: dict = {}
     bare = call(e.at, 1.25)
-    return (wire.expr(e, ids=ids), repr(e), str(e), call(e.at, p0), hash(e), node_vars(e),
+    other = call(e.at, Point(**{k: v + 0.375 for k, v in p0._coordinates.items()}))
+    return (wire.expr(e, ids=ids), repr(e), str(e), (call(e.at, p0), other), hash(e), node_vars(e),
             bare if bare[0] == "ok" else bare[1])
 
 
@@ -80,6 +89,13 @@ def check_cases(cases: list[dict], rep: Report, known: dict) -> None:
                     ok = False
                 elif not (e == copies[i]) or e != copies[i]:
                     rep.violation(f"pool expression {i} no longer equals a freshly built copy after operation {k} ({op['op']})", info)
+                    ok = False
+            # ... and still denotes what a never-used copy denotes (first evaluation of a fresh build)
+            fresh_pool = H.build_pool(c["pool"])
+            for i, e in enumerate(pool):
+                used, fresh = call(e.at, p0), call(fresh_pool[i].at, p0)
+                if not H.same_result(used, fresh) and "timeout" not in (used[1], fresh[1]):
+                    rep.violation(f"pool expression {i} evaluates to {used!r} after operation {k} ({op['op']}) but a never-used copy to {fresh!r}", info)
                     ok = False
             for r, snap in returned:
                 if snapshot_expr(r, p0) != snap:
